@@ -520,4 +520,186 @@ theorem inv_reach {s : St} (h : Reach s) : Inv s := by
   | init => exact inv_init
   | step _ hs ih => exact inv_step ih hs
 
+/-! ## progress: busy steps decrease a measure, and a blocked goroutine always waits for one that can move -/
+
+theorem busyP_decreases {s s' : St} {b : Bytes} (hb : s.ppc.busy = true) (hs : stepP s b = some s') :
+    s'.rem < s.rem ∧ s'.cpc = s.cpc := by
+  obtain ⟨queue, depth, token, lock, ppc, cpc, produced, clog, rets⟩ := s
+  cases ppc <;> simp only [stepP] at hs <;> (try split at hs) <;> cases hs <;>
+    simp_all [St.rem, PPc.rem, PPc.busy]
+
+theorem busyC_decreases {s s' : St} {call : Call} (hb : s.cpc.busy = true) (hs : stepC s call = some s') :
+    s'.rem < s.rem ∧ s'.ppc = s.ppc := by
+  obtain ⟨queue, depth, token, lock, ppc, cpc, produced, clog, rets⟩ := s
+  cases cpc
+  case lock k =>
+    cases k <;> simp only [stepC] at hs <;> split at hs <;> cases hs <;> simp_all [St.rem, CPc.rem]
+  all_goals
+    simp only [stepC] at hs <;> (try split at hs) <;> (try cases hs) <;>
+      simp_all [St.rem, CPc.rem, CPc.busy]
+
+theorem busy_step_decreases {s s' : St} (hs : BusyStep s s') : s'.rem < s.rem := by
+  cases hs with
+  | p b hb hp => exact (busyP_decreases hb hp).1
+  | c call hb hc => exact (busyC_decreases hb hc).1
+
+macro "dl_close" : tactic =>
+  `(tactic| ((simp_all [stepP, stepC, PPc.crit, CPc.crit, PPc.tok, CPc.tok, PPc.busy, CPc.busy, CInv]) <;>
+      (try split) <;> (try simp_all)))
+
+/-- if the producer is inside `Enqueue` and cannot move, the consumer is inside a call and can -/
+theorem blockedP_enabledC {s : St} (h : Inv s) (b : Bytes) (call : Call) (hb : s.ppc.busy = true)
+    (hblk : stepP s b = none) : s.cpc.busy = true ∧ (stepC s call).isSome = true := by
+  obtain ⟨queue, depth, token, lock, ppc, cpc, produced, clog, rets⟩ := s
+  obtain ⟨h1, h2, h3, h4, h5, h6, h7, h8, h9, h10⟩ := h
+  rcases lock with _ | (_ | _) <;> cases token <;> cases ppc <;> simp [stepP] at hblk <;>
+    cases cpc <;> dl_close
+
+/-- if the consumer is inside a call and cannot move, the producer is inside `Enqueue` and can -/
+theorem blockedC_enabledP {s : St} (h : Inv s) (b : Bytes) (call : Call) (hb : s.cpc.busy = true)
+    (hblk : stepC s call = none) : s.ppc.busy = true ∧ (stepP s b).isSome = true := by
+  obtain ⟨queue, depth, token, lock, ppc, cpc, produced, clog, rets⟩ := s
+  obtain ⟨h1, h2, h3, h4, h5, h6, h7, h8, h9, h10⟩ := h
+  rcases lock with _ | (_ | _) <;> cases token <;> cases cpc <;> simp [stepC] at hblk <;>
+    (try (split at hblk <;> simp at hblk)) <;> cases ppc <;> dl_close
+
+
+theorem no_deadlock {s : St} (h : Inv s) (hb : s.ppc.busy = true ∨ s.cpc.busy = true) :
+    ∃ s', BusyStep s s' := by
+  rcases hb with hb | hb
+  · cases hp : stepP s [] with
+    | some s' => exact ⟨s', .p [] hb hp⟩
+    | none =>
+      obtain ⟨hcb, hc⟩ := blockedP_enabledC h [] .dequeue hb hp
+      obtain ⟨s', hs'⟩ := Option.isSome_iff_exists.mp hc
+      exact ⟨s', .c .dequeue hcb hs'⟩
+  · cases hc : stepC s .dequeue with
+    | some s' => exact ⟨s', .c .dequeue hb hc⟩
+    | none =>
+      obtain ⟨hpb, hp⟩ := blockedC_enabledP h [] .dequeue hb hc
+      obtain ⟨s', hs'⟩ := Option.isSome_iff_exists.mp hp
+      exact ⟨s', .p [] hpb hs'⟩
+
+/-! ## reading the FIFO statement: what `consume l S = some Q` says -/
+
+theorem gotsOf_append (a b : List CEv) : gotsOf (a ++ b) = gotsOf a ++ gotsOf b := by
+  induction a with
+  | nil => rfl
+  | cons e es ih => cases e <;> simp [gotsOf, ih]
+
+theorem backsOf_append (a b : List CEv) : backsOf (a ++ b) = backsOf a ++ backsOf b := by
+  induction a with
+  | nil => rfl
+  | cons e es ih => cases e <;> simp [backsOf, ih]
+
+theorem gotsOf_map_got (bs : List Bytes) : gotsOf (bs.map .got) = bs := by
+  induction bs with
+  | nil => rfl
+  | cons b bs ih => simp [gotsOf, ih]
+
+theorem backsOf_map_got (bs : List Bytes) : backsOf (bs.map .got) = [] := by
+  induction bs with
+  | nil => rfl
+  | cons b bs ih => simp [backsOf, ih]
+
+/-- without put-backs the chunks taken are a prefix of the stream and the rest is what is left -/
+theorem consume_only_gots (l : List CEv) : ∀ (S Q : List Bytes), backsOf l = [] →
+    consume l S = some Q → S = gotsOf l ++ Q := by
+  induction l with
+  | nil => intro S Q _ h; simp [consume] at h; simp [gotsOf, h]
+  | cons e es ih =>
+    intro S Q hb h
+    cases e with
+    | got c =>
+      cases S with
+      | nil => simp [consume] at h
+      | cons hd t =>
+        by_cases hc : hd = c
+        · simp [consume, hc] at h
+          simp [gotsOf, hc]
+          exact ih t Q (by simpa [backsOf] using hb) h
+        · simp [consume, hc] at h
+    | back b => simp [backsOf] at hb
+
+/-- nothing is lost or duplicated: chunks taken plus chunks left are, as a multiset, the stream
+plus the put-backs -/
+theorem consume_perm (l : List CEv) : ∀ (S Q : List Bytes),
+    consume l S = some Q → (gotsOf l ++ Q).Perm (backsOf l ++ S) := by
+  induction l with
+  | nil => intro S Q h; simp [consume] at h; simp [gotsOf, backsOf, h]
+  | cons e es ih =>
+    intro S Q h
+    cases e with
+    | got c =>
+      cases S with
+      | nil => simp [consume] at h
+      | cons hd t =>
+        by_cases hc : hd = c
+        · simp [consume, hc] at h
+          have := ih t Q h
+          simp only [gotsOf, backsOf, List.cons_append]
+          subst hc
+          exact (List.Perm.cons hd this).trans List.perm_middle.symm
+        · simp [consume, hc] at h
+    | back b =>
+      simp [consume] at h
+      have := ih (b :: S) Q h
+      simp only [gotsOf, backsOf, List.cons_append]
+      exact this.trans List.perm_middle
+
+/-- a put-back chunk is the very next chunk taken, and the pair cancels -/
+theorem consume_putback_first (l l' : List CEv) (b c : Bytes) (S Q : List Bytes)
+    (h : consume (l ++ .back b :: .got c :: l') S = some Q) :
+    c = b ∧ consume (l ++ l') S = some Q := by
+  rw [consume_append_log] at h
+  rw [consume_append_log]
+  cases h1 : consume l S with
+  | none => simp [h1] at h
+  | some Q1 =>
+    simp [h1, consume] at h
+    simp
+    exact ⟨h.1.symm, h.2⟩
+
+theorem events_gots (r : Ret) : gotsOf r.events = r.chunks := by
+  cases r with
+  | deq r => cases r <;> simp [Ret.events, Ret.chunks, gotsOf]
+  | deqAll r => cases r <;> simp [Ret.events, Ret.chunks, gotsOf, gotsOf_map_got]
+  | req b => simp [Ret.events, Ret.chunks, gotsOf]
+  | depth d => simp [Ret.events, Ret.chunks, gotsOf]
+
+theorem events_backs (r : Ret) (h : r.isReq = false) : backsOf r.events = [] := by
+  cases r with
+  | deq r => cases r <;> simp [Ret.events, backsOf]
+  | deqAll r => cases r <;> simp [Ret.events, backsOf, backsOf_map_got]
+  | req b => simp [Ret.isReq] at h
+  | depth d => simp [Ret.events, backsOf]
+
+theorem rets_gots (rets : List Ret) : gotsOf (rets.flatMap Ret.events) = (rets.map Ret.chunks).flatten := by
+  induction rets with
+  | nil => rfl
+  | cons r rs ih => simp [List.flatMap_cons, gotsOf_append, events_gots, ih]
+
+theorem rets_backs (rets : List Ret) (h : ∀ r ∈ rets, r.isReq = false) :
+    backsOf (rets.flatMap Ret.events) = [] := by
+  induction rets with
+  | nil => rfl
+  | cons r rs ih =>
+    simp only [List.flatMap_cons, backsOf_append]
+    rw [events_backs r (h r (by simp)), ih (fun x hx => h x (by simp [hx]))]
+    rfl
+
+theorem bytes_chunks (r : Ret) : r.bytes = r.chunks.flatten := by
+  cases r with
+  | deq r => cases r <;> simp [Ret.bytes, Ret.chunks]
+  | deqAll r => cases r <;> simp [Ret.bytes, Ret.chunks]
+  | req b => simp [Ret.bytes, Ret.chunks]
+  | depth d => simp [Ret.bytes, Ret.chunks]
+
+theorem outBytes_chunks (rets : List Ret) : outBytes rets = (rets.map Ret.chunks).flatten.flatten := by
+  induction rets with
+  | nil => rfl
+  | cons r rs ih =>
+    simp only [outBytes, List.map_cons, List.flatten_cons, List.flatten_append] at ih ⊢
+    rw [ih, bytes_chunks]
+
 end Scrapli.Queue.Conc
